@@ -8,6 +8,7 @@ import Apimodel.Validators
 import Apimodel.SerSchema
 import Apimodel.Refs
 import Apimodel.Versions
+import Apimodel.Generics
 import Apimodel.AcceptThm
 import Apimodel.NoCrashThm
 import Apimodel.ErrorsThm
@@ -260,6 +261,21 @@ def parseOrd (j : Json) : P Ordering' := do
   | "before" => pure (.before (← str a[1]!))
   | t => throw s!"bad ordering {t}"
 
+partial def parseGTy (j : Json) : P Generics.GTy := do
+  let a ← arr j
+  match ← str a[0]! with
+  | "v" => pure (.var (← str a[1]!))
+  | "c" => pure (.con (← str a[1]!))
+  | "app" => pure (.app (← str a[1]!) (← (← arr a[2]!).toList.mapM parseGTy))
+  | t => throw s!"bad generic term {t}"
+
+def parseGClass (j : Json) : P Generics.GClass := do
+  pure { name := ← str (← j.getObjVal? "name"),
+         params := ← (← arr (← j.getObjVal? "params")).toList.mapM str,
+         baseArgs := ← (← arr (← j.getObjVal? "base_args")).toList.mapM parseGTy,
+         fields := ← (← arr (← j.getObjVal? "fields")).toList.mapM (fun f => do
+           let a ← arr f; pure ((← str a[0]!), (← parseGTy a[1]!))) }
+
 def outcomeJson : Outcome Val → Json
   | .ok v => Json.mkObj [("ok", valJson v)]
   | .invalid e => Json.mkObj [("invalid", errsJson e.flatten), ("mixed", mixedKeys e.children)]
@@ -374,6 +390,14 @@ def handle (line : String) : String :=
           pure (Json.mkObj [("id", id), ("main", refsJ out.main),
                             ("defs", Json.arr (out.defs.map (fun p => Json.arr #[Json.str p.1, refsJ p.2])).toArray),
                             ("counts", Json.arr ((Refs.extract env root).map (fun p => Json.arr #[Json.str p.1, (p.2 : Nat)])).toArray)])
+      | "generic" => do
+          let chain ← (← arr (← j.getObjVal? "chain")).toList.mapM parseGClass
+          let args ← (← arr (← j.getObjVal? "args")).toList.mapM parseGTy
+          let fj (fs : List (String × String)) : Json := Json.arr (fs.map (fun p => Json.arr #[Json.str p.1, Json.str p.2])).toArray
+          let res := Generics.resolveChain chain args
+          pure (Json.mkObj [("id", id), ("fields", fj (Generics.renderFields res)),
+                            ("appearance_order", fj (Generics.renderFields (Generics.resolveChainOld chain args))),
+                            ("wf", Generics.chainWf chain), ("closed", res.all (fun p => Generics.closed p.2))])
       | op => throw s!"unknown op {op}"
     match r with
     | .ok j => j.compress
